@@ -12,6 +12,7 @@ import memserver as ms
 from memserver import CLOCK
 
 NOW0 = 1_000_000
+JWK2 = {"kty": "oct", "kid": "k2", "k": base64.urlsafe_b64encode(b"fedcba9876543210fedcba9876543210").rstrip(b"=").decode()}
 JWK = {"kty": "oct", "kid": "k1", "k": base64.urlsafe_b64encode(b"0123456789abcdef0123456789abcdef").rstrip(b"=").decode()}
 
 
@@ -54,19 +55,22 @@ class AsyncCache(SyncCache):
         self.d.pop(k, None)
 
 
-def id_token(name, nonce, client_id):
+def id_token(name, nonce, client_id, rotated=False):
     from authlib.jose import jwt
     claims = {"iss": f"https://{name}.example", "sub": "u1", "aud": client_id, "exp": CLOCK.now + 600, "iat": CLOCK.now}
     if nonce is not None:
         claims["nonce"] = nonce
-    return jwt.encode({"alg": "HS256", "kid": "k1"}, claims, JWK).decode()
+    return jwt.encode({"alg": "HS256", "kid": "k2" if rotated else "k1"}, claims, JWK2 if rotated else JWK).decode()
 
 
 class ClientWorld:
-    def __init__(self, framework, names, cache_mode, pkce, openid):
+    def __init__(self, framework, names, cache_mode, pkce, openid, oauth1=False, rotate=False):
         ms.install_clock()
         CLOCK.now = NOW0
         self.framework, self.names, self.cache_mode, self.pkce, self.openid = framework, list(names), cache_mode, pkce, openid
+        self.oauth1 = oauth1          # the providers are OAuth 1 services (request token = the flow's state)
+        self.rotate = rotate          # the provider signs ID tokens with a key that is not in the client's cached JWKS (key rotation)
+        self.issued_secrets = {}      # OAuth 1: request token -> its secret, as the provider issued them
         self.sessions = [{}, {}]
         self.sent = []          # requests that reached the transport
         self.gen = Tokens()
@@ -84,14 +88,21 @@ class ClientWorld:
 
     # ---- registration ---------------------------------------------------------------------
     def _reg_kwargs(self, name):
+        if self.oauth1:
+            return dict(client_id="cid-" + name, client_secret="sec-" + name, request_token_url=f"https://{name}.example/request",
+                        access_token_url=f"https://{name}.example/access", authorize_url=f"https://{name}.example/authorize",
+                        client_kwargs={"signature_method": "PLAINTEXT"})       # PLAINTEXT shows which token secret signed the request
         ck = {"scope": "openid profile" if self.openid else "profile"}
         if self.pkce:
             ck["code_challenge_method"] = "S256"
         if name == self.names[-1]:
             ck["redirect_uri"] = "https://rp/registered-default"       # a provider registered with a default redirect_uri
-        return dict(client_id="cid-" + name, client_secret="sec-" + name, access_token_url=f"https://{name}.example/token",
-                    authorize_url=f"https://{name}.example/authorize", client_kwargs=ck, jwks={"keys": [JWK]}, issuer=f"https://{name}.example",
-                    id_token_signing_alg_values_supported=["HS256"])
+        kw = dict(client_id="cid-" + name, client_secret="sec-" + name, access_token_url=f"https://{name}.example/token",
+                  authorize_url=f"https://{name}.example/authorize", client_kwargs=ck, jwks={"keys": [JWK]}, issuer=f"https://{name}.example",
+                  id_token_signing_alg_values_supported=["HS256"])
+        if self.rotate:
+            kw["jwks_uri"] = f"https://{name}.example/jwks"
+        return kw
 
     def _setup_flask(self):
         from flask import Flask
@@ -116,6 +127,11 @@ class ClientWorld:
         self.oauth = OAuth(cache=self.cache)
 
         def handler(request):
+            if self.oauth1:
+                status, text = self._oauth1_endpoint(str(request.url), dict(request.headers))
+                return httpx.Response(status, text=text)
+            if request.url.path == "/jwks":
+                return httpx.Response(200, json=self._jwks_endpoint())
             body = self._token_endpoint(str(request.url), request.content.decode())
             return httpx.Response(400 if "error" in body else 200, json=body)
         for n in self.names:
@@ -132,8 +148,33 @@ class ClientWorld:
             return {"error": "invalid_grant", "error_description": "refused by the provider"}
         tok = {"access_token": "at-" + str(len(self.sent)), "token_type": "Bearer"}
         if self.next_id_nonce is not False:
-            tok["id_token"] = id_token(name, self.next_id_nonce, "cid-" + name)
+            tok["id_token"] = id_token(name, self.next_id_nonce, "cid-" + name, rotated=self.rotate)
         return tok
+
+    def _oauth1_endpoint(self, url, headers):
+        """the OAuth 1 provider: /request issues request tokens, /access records the access-token request"""
+        u = urlparse(url)
+        auth = {k.lower(): v for k, v in headers.items()}.get("authorization", "")
+        if isinstance(auth, bytes):
+            auth = auth.decode()
+        from urllib.parse import unquote
+        params = {k: unquote(v) for k, v in re.findall(r'(oauth_\w+)="([^"]*)"', auth)}
+        name = u.hostname.split(".")[0]
+        if u.path == "/request":
+            n = len(self.issued_secrets) + 1
+            self.issued_secrets[f"rq{n}"] = f"rs{n}"
+            self.last_callback = params.get("oauth_callback")
+            return 200, f"oauth_token=rq{n}&oauth_token_secret=rs{n}&oauth_callback_confirmed=true"
+        sig = params.get("oauth_signature", "")
+        self.sent.append({"url": url, "form": {"code": params.get("oauth_verifier"), "oauth_token": params.get("oauth_token"),
+                                               "code_verifier": sig.split("&", 1)[1] if "&" in sig else None, "redirect_uri": None}})
+        if self.next_fail:
+            return 401, "oauth_problem=token_rejected"
+        return 200, f"oauth_token=acc{len(self.sent)}&oauth_token_secret=as{len(self.sent)}"
+
+    def _jwks_endpoint(self):
+        self.jwks_fetches = getattr(self, "jwks_fetches", 0) + 1
+        return {"keys": [JWK, JWK2]}
 
     def _requests_send(self):
         from unittest import mock
@@ -142,11 +183,21 @@ class ClientWorld:
         def send(session_self, req, **kw):
             body = req.body if isinstance(req.body, str) else (req.body or b"").decode()
             r = requests.Response()
+            r.request = req
+            if self.oauth1:
+                r.status_code, text = self._oauth1_endpoint(req.url, dict(req.headers))
+                r._content = text.encode()
+                r.headers["Content-Type"] = "application/x-www-form-urlencoded"
+                return r
+            if urlparse(req.url).path == "/jwks":
+                r.status_code = 200
+                r._content = json.dumps(self._jwks_endpoint()).encode()
+                r.headers["Content-Type"] = "application/json"
+                return r
             payload = self._token_endpoint(req.url, body)
             r.status_code = 400 if "error" in payload else 200
             r._content = json.dumps(payload).encode()
             r.headers["Content-Type"] = "application/json"
-            r.request = req
             return r
         return mock.patch("requests.sessions.Session.send", send)
 
@@ -161,18 +212,22 @@ class ClientWorld:
             import flask
             with self.app.test_request_context("/login"):
                 flask.session.update(s)
-                resp = self._client(name).authorize_redirect(redirect)
+                with self._requests_send():
+                    resp = self._client(name).authorize_redirect(redirect)
                 s.clear(); s.update(dict(flask.session))
             loc = resp.headers["Location"]
         elif fw == "django":
             from django.test import RequestFactory
             req = RequestFactory().get("/login"); req.session = s
-            loc = self._client(name).authorize_redirect(req, redirect)["Location"]
+            with self._requests_send():
+                loc = self._client(name).authorize_redirect(req, redirect)["Location"]
         else:
             class Rq: pass
             req = Rq(); req.session = s; req.query_params = {}
             loc = asyncio.run(self._client(name).authorize_redirect(req, redirect)).headers["location"]
         q = dict(parse_qsl(urlparse(loc).query))
+        if self.oauth1:
+            return {"out": "saved", "state": q.get("oauth_token"), "url_redirect": None, "url_challenge": None, "url_nonce": None, "callback": self.last_callback}
         return {"out": "saved", "state": q.get("state"), "url_redirect": q.get("redirect_uri"), "url_challenge": q.get("code_challenge"), "url_nonce": q.get("nonce")}
 
     def callback(self, sess, name, state, code="c0de", id_nonce=False, fail=False):
@@ -183,7 +238,7 @@ class ClientWorld:
         self.next_id_nonce = id_nonce
         self.next_fail = fail
         before = len(self.sent)
-        q = "&".join(f"{k}={v}" for k, v in (("code", code), ("state", state)) if v is not None)
+        q = "&".join(f"{k}={v}" for k, v in ((("oauth_verifier", code), ("oauth_token", state)) if self.oauth1 else (("code", code), ("state", state))) if v is not None)
         try:
             if fw == "flask":
                 import flask
@@ -208,18 +263,20 @@ class ClientWorld:
         except OAuthError as e:
             if len(self.sent) > before:      # the code was sent; the provider refused the exchange
                 form = self.sent[-1]["form"]
-                return {"out": "proceeds", "sent": {"redirect": form.get("redirect_uri"), "verifier": form.get("code_verifier"), "code": form.get("code")},
+                return {"out": "proceeds", "sent": {"redirect": form.get("redirect_uri"), "verifier": form.get("code_verifier"), "code": form.get("code"), "token": form.get("oauth_token")},
                         "endpoint": self.sent[-1]["url"], "id_token": "exchange-failed:" + str(e.error), "requests": len(self.sent) - before}
+            if self.oauth1 and "Missing" in (e.description or ""):      # the OAuth 1 apps report an unknown request token this way
+                return {"out": "mismatch", "requests": len(self.sent) - before}
             return {"out": "oauth_error", "error": e.error, "requests": len(self.sent) - before}
         except Exception as e:
             from authlib.jose.errors import JoseError
             if isinstance(e, JoseError) and len(self.sent) > before:
                 form = self.sent[-1]["form"]
-                return {"out": "proceeds", "sent": {"redirect": form.get("redirect_uri"), "verifier": form.get("code_verifier"), "code": form.get("code")},
+                return {"out": "proceeds", "sent": {"redirect": form.get("redirect_uri"), "verifier": form.get("code_verifier"), "code": form.get("code"), "token": form.get("oauth_token")},
                         "endpoint": self.sent[-1]["url"], "id_token": "rejected:" + type(e).__name__, "requests": len(self.sent) - before}
             return {"raised": type(e).__name__ + ": " + str(e)[:100]}
         form = self.sent[-1]["form"]
-        return {"out": "proceeds", "sent": {"redirect": form.get("redirect_uri"), "verifier": form.get("code_verifier"), "code": form.get("code")},
+        return {"out": "proceeds", "sent": {"redirect": form.get("redirect_uri"), "verifier": form.get("code_verifier"), "code": form.get("code"), "token": form.get("oauth_token")},
                 "endpoint": self.sent[-1]["url"], "id_token": "validated" if "userinfo" in tok else "not-validated", "requests": len(self.sent) - before}
 
     def advance(self, dt):
@@ -235,6 +292,9 @@ class ClientWorld:
                 if isinstance(v, str):
                     v = json.loads(v)
                 data = v.get("data") or {}
+                if self.oauth1:
+                    out.append([k, None, (data.get("request_token") or {}).get("oauth_token_secret"), None])
+                    continue
                 out.append([k, data.get("redirect_uri"), data.get("code_verifier"), data.get("nonce")])
             return sorted(out)
         return {"sessions": [entries(s) for s in self.sessions], "cache": entries(self.cache.d) if self.cache else []}
@@ -246,4 +306,6 @@ class ClientWorld:
         if isinstance(v, str):
             v = json.loads(v)
         d = (v or {}).get("data") or {}
+        if self.oauth1:
+            return {"redirect": None, "verifier": (d.get("request_token") or {}).get("oauth_token_secret"), "nonce": None}
         return {"redirect": d.get("redirect_uri"), "verifier": d.get("code_verifier"), "nonce": d.get("nonce")}
